@@ -910,10 +910,25 @@ func (fr *frame) jsonDecode(ds *jsonDecState, n *jnode, t types.Type, addr *valu
 			ds.typeErr(n.kindName(), t)
 			return
 		}
-		out := make([]value, len(n.vals))
+		// as encoding/json does: elements are decoded into the slice's existing backing array as far as its capacity
+		// reaches, WITHOUT being zeroed first (a field the text omits keeps what the slot held before); beyond the
+		// capacity the slice grows with zero elements
+		prev, _ := (*addr).([]value)
+		out := prev[:0]
 		for i := range n.vals {
-			out[i] = zero(u.Elem())
+			if i < cap(prev) {
+				out = prev[:i+1]
+				if out[i] == nil {
+					out[i] = zero(u.Elem())
+				}
+			} else {
+				out = append(out, zero(u.Elem()))
+				prev = out
+			}
 			fr.jsonDecode(ds, n.vals[i], u.Elem(), &out[i])
+		}
+		if len(n.vals) == 0 {
+			out = []value{}
 		}
 		*addr = out
 	case *types.Array:
